@@ -343,7 +343,7 @@ def inject_mistakes(rng, src, k):
                     depth += src[j] in "(["
                     depth -= src[j] in ")]"
                     j += 1
-                src = src[:q + 1] + " " + rng.choice(["999999", "b'x'", "1.5", '"not a number"', "a + b", "-1", "'cc'".replace("cc", "q")]) + src[j:]
+                src = src[:q + 1] + " " + rng.choice(["999999", "b'x'", "1.5", '"not a number"', "a + b", "-1", "'cc'".replace("cc", "q"), '""', '""']) + src[j:]
         elif kind == "malformed":
             # a list body that is not comma-separated meta syntax, at any depth
             r = rng.random()
